@@ -2,8 +2,11 @@ package sim
 
 import (
 	"bytes"
+	"crypto/sha256"
+	"crypto/sha512"
 	"encoding/hex"
 	"fmt"
+	"hash"
 	"strings"
 	"sync"
 
@@ -15,25 +18,25 @@ import (
 // (Initial keys from the client's destination connection ID; Handshake/0-RTT/1-RTT secrets from
 // the TLS key logs of the endpoints).
 type Packet struct {
-	Kind     string          `json:"kind"` // initial | 0rtt | handshake | retry | vn | 1rtt | undecryptable | garbage
-	Version  uint32          `json:"version,omitempty"`
-	DCID     []byte          `json:"dcid,omitempty"`
-	SCID     []byte          `json:"scid,omitempty"`
-	Token    []byte          `json:"token,omitempty"`
-	PN       uint64          `json:"pn"`
-	PNLen    int             `json:"pnlen,omitempty"`
-	KeyPhase bool            `json:"kp,omitempty"`
-	KeyGen   int             `json:"keygen,omitempty"` // 1-RTT key generation the packet opened with
-	Conn     int             `json:"conn,omitempty"`   // 1-RTT: index of the connection (TLS key log entry) whose keys opened the packet
-	Len      int             `json:"len"`
-	Frames   []refwire.Frame `json:"-"`
-	Names    []string        `json:"frames,omitempty"`
-	Err      string          `json:"err,omitempty"`
-	Versions []uint32        `json:"versions,omitempty"` // vn
-	RetrySCID []byte         `json:"-"`
-	Raw      []byte          `json:"-"`
-	AckEliciting bool        `json:"ae,omitempty"`
-	V2KULabelFallback bool   `json:"v2_ku_fallback,omitempty"` // opened only with the v1 "quic ku" chain on a v2 connection
+	Kind              string          `json:"kind"` // initial | 0rtt | handshake | retry | vn | 1rtt | undecryptable | garbage
+	Version           uint32          `json:"version,omitempty"`
+	DCID              []byte          `json:"dcid,omitempty"`
+	SCID              []byte          `json:"scid,omitempty"`
+	Token             []byte          `json:"token,omitempty"`
+	PN                uint64          `json:"pn"`
+	PNLen             int             `json:"pnlen,omitempty"`
+	KeyPhase          bool            `json:"kp,omitempty"`
+	KeyGen            int             `json:"keygen,omitempty"` // 1-RTT key generation the packet opened with
+	Conn              int             `json:"conn,omitempty"`   // 1-RTT: index of the connection (TLS key log entry) whose keys opened the packet
+	Len               int             `json:"len"`
+	Frames            []refwire.Frame `json:"-"`
+	Names             []string        `json:"frames,omitempty"`
+	Err               string          `json:"err,omitempty"`
+	Versions          []uint32        `json:"versions,omitempty"` // vn
+	RetrySCID         []byte          `json:"-"`
+	Raw               []byte          `json:"-"`
+	AckEliciting      bool            `json:"ae,omitempty"`
+	V2KULabelFallback bool            `json:"v2_ku_fallback,omitempty"` // opened only with the v1 "quic ku" chain on a v2 connection
 }
 
 type keyset struct {
@@ -48,22 +51,26 @@ type oneRTT struct {
 	largest int64
 	secret  []byte
 	suite   uint16
+	version uint32 // the version whose labels derive this connection's 1-RTT keys (found by trial)
 }
 
 // Observer decodes every datagram passing the router.
 type Observer struct {
-	mu        sync.Mutex
-	version   uint32
-	initial   [2][]*keyset  // per direction: candidates (one per client DCID seen)
-	handshake [2][]*keyset  // per direction
-	zeroRTT   []*keyset     // c2s only
-	app       [2][]*oneRTT  // per direction: one per connection (client random)
-	seenDCID  map[string]bool
-	seenSecret map[string]bool
-	cidLen    [2]int // short-header DCID length per direction (c2s: server CID length; s2c: client CID length)
-	cidKnown  [2]bool
-	Packets   [2][]*Packet // all decoded packets per direction in send order
+	mu            sync.Mutex
+	version       uint32
+	initial       [2][]*keyset // per direction: candidates (one per client DCID seen)
+	handshake     [2][]*keyset // per direction
+	zeroRTT       []*keyset    // c2s only
+	app           [2][]*oneRTT // per direction: one per connection (client random)
+	seenDCID      map[string]bool
+	seenSecret    map[string]bool
+	cidLen        [2]int // short-header DCID length per direction (c2s: server CID length; s2c: client CID length)
+	cidKnown      [2]bool
+	Packets       [2][]*Packet // all decoded packets per direction in send order
 	Undecryptable int
+	// resumption PSKs handed over by the scenario (AddResumptionPSK): the TLS stack does not write
+	// CLIENT_EARLY_TRAFFIC_SECRET to the key log, the observer derives it itself (RFC 8446 7.1)
+	psks [][]byte
 	// InitialPNHint seeds the "largest packet number seen" of the client's Initial space (-1 = none). A spec may
 	// start at a packet number no stateless receiver could decode; the observer, which knows the spec, still can.
 	InitialPNHint int64
@@ -81,6 +88,74 @@ func NewObserver(keylogs ...*KeyLog) *Observer {
 		kl.mu.Unlock()
 	}
 	return o
+}
+
+// AddResumptionPSK tells the observer the pre-shared key of a session ticket the client is going to resume with (the
+// "secret" of the client's TLS 1.3 session state). With it the observer derives client_early_traffic_secret from the
+// ClientHello it reads off the wire, and so opens 0-RTT packets, which the key log alone does not allow.
+func (o *Observer) AddResumptionPSK(psk []byte) {
+	o.mu.Lock()
+	o.psks = append(o.psks, append([]byte(nil), psk...))
+	o.mu.Unlock()
+}
+
+// PSKFromSessionState extracts the TLS 1.3 resumption PSK from the serialized client session state
+// (crypto/tls SessionState.Bytes: version u16, type u8, cipher suite u16, created u64, secret<0..255>, ...).
+func PSKFromSessionState(b []byte) ([]byte, bool) {
+	if len(b) < 14 || b[0] != 0x03 || b[1] != 0x04 || len(b) < 14+int(b[13]) || b[13] == 0 {
+		return nil, false
+	}
+	return b[14 : 14+int(b[13])], true
+}
+
+// deriveEarly (o.mu held) adds 0-RTT key candidates for the connection whose client Initial packets carry dcid:
+// client_early_traffic_secret = Derive-Secret(HKDF-Extract(0, PSK), "c e traffic", ClientHello). Reports whether
+// new candidates were added.
+func (o *Observer) deriveEarly(dcid []byte, prior []*Packet) bool {
+	if len(o.psks) == 0 {
+		return false
+	}
+	var ini []*Packet
+	for _, p := range o.Packets[C2S] {
+		if p.Kind == "initial" && bytes.Equal(p.DCID, dcid) {
+			ini = append(ini, p)
+		}
+	}
+	for _, p := range prior {
+		if p.Kind == "initial" && bytes.Equal(p.DCID, dcid) {
+			ini = append(ini, p)
+		}
+	}
+	data, _, _, _ := CryptoStream(ini, "initial")
+	msgs, _ := HandshakeMessages(data)
+	if len(msgs) == 0 || msgs[0].Type != 1 {
+		return false
+	}
+	added := false
+	for _, psk := range o.psks {
+		for _, suite := range suitesFor(len(psk)) {
+			h := newSuiteHash(suite)
+			h.Write(msgs[0].Raw)
+			secret := refcrypto.HKDFExpandLabel(suite, refcrypto.HKDFExtract(suite, psk, nil), h.Sum(nil), "c e traffic", refcrypto.HashLen(suite))
+			key := fmt.Sprintf("early/%x/%x", suite, secret)
+			if o.seenSecret[key] {
+				continue
+			}
+			o.seenSecret[key] = true
+			added = true
+			for _, v := range []uint32{refcrypto.V1, refcrypto.V2} {
+				o.zeroRTT = append(o.zeroRTT, &keyset{k: refcrypto.DeriveKeys(suite, v, secret), largest: -1, owner: "early"})
+			}
+		}
+	}
+	return added
+}
+
+func newSuiteHash(suite uint16) hash.Hash {
+	if suite == refcrypto.TLS_AES_256_GCM_SHA384 {
+		return sha512.New384()
+	}
+	return sha256.New()
 }
 
 func suitesFor(secretLen int) []uint16 {
@@ -194,7 +269,7 @@ func (o *Observer) Decode(dir Dir, data []byte) []*Packet {
 			out = append(out, &Packet{Kind: "garbage", Version: h.Version, Len: len(rest), Err: "length field exceeds datagram", Raw: rest})
 			break
 		}
-		out = append(out, o.decodeLong(dir, h, rest[:end]))
+		out = append(out, o.decodeLong(dir, h, rest[:end], out))
 		rest = rest[end:]
 	}
 	return out
@@ -210,7 +285,7 @@ func names(fs []refwire.Frame) (n []string, ae bool) {
 	return
 }
 
-func (o *Observer) decodeLong(dir Dir, h refwire.LongHeader, pkt []byte) *Packet {
+func (o *Observer) decodeLong(dir Dir, h refwire.LongHeader, pkt []byte, prior []*Packet) *Packet {
 	kind := []string{"initial", "0rtt", "handshake", "retry"}[h.Kind]
 	p := &Packet{Kind: kind, Version: h.Version, DCID: h.DCID, SCID: h.SCID, Token: h.Token, Len: len(pkt), Raw: pkt}
 	o.mu.Lock()
@@ -243,27 +318,38 @@ func (o *Observer) decodeLong(dir Dir, h refwire.LongHeader, pkt []byte) *Packet
 		cands = o.zeroRTT
 	}
 	// try the most recently added candidates first
-	for i := len(cands) - 1; i >= 0; i-- {
-		ks := cands[i]
-		if ks.k.Version != h.Version {
-			continue
+	open := func() bool {
+		for i := len(cands) - 1; i >= 0; i-- {
+			ks := cands[i]
+			if ks.k.Version != h.Version {
+				continue
+			}
+			_, pn, pnLen, payload, err := refcrypto.Unprotect(ks.k, pkt, h.PNOffset, ks.largest)
+			if err != nil {
+				continue
+			}
+			if int64(pn) > ks.largest {
+				ks.largest = int64(pn)
+			}
+			p.PN, p.PNLen = pn, pnLen
+			fs, ferr := refwire.ParseFrames(payload)
+			if ferr != nil {
+				p.Err = "frames: " + ferr.Error()
+			}
+			p.Frames = fs
+			p.Names, p.AckEliciting = names(fs)
+			return true
 		}
-		hdr, pn, pnLen, payload, err := refcrypto.Unprotect(ks.k, pkt, h.PNOffset, ks.largest)
-		if err != nil {
-			continue
-		}
-		_ = hdr
-		if int64(pn) > ks.largest {
-			ks.largest = int64(pn)
-		}
-		p.PN, p.PNLen = pn, pnLen
-		fs, ferr := refwire.ParseFrames(payload)
-		if ferr != nil {
-			p.Err = "frames: " + ferr.Error()
-		}
-		p.Frames = fs
-		p.Names, p.AckEliciting = names(fs)
+		return false
+	}
+	if open() {
 		return p
+	}
+	if h.Kind == refwire.Long0RTT && dir == C2S && o.deriveEarly(h.DCID, prior) {
+		cands = o.zeroRTT
+		if open() {
+			return p
+		}
 	}
 	p.Kind = "undecryptable"
 	p.Err = "no key opens this " + kind + " packet"
@@ -289,14 +375,35 @@ func (o *Observer) decodeShort(dir Dir, pkt []byte) *Packet {
 	for ci := len(o.app[dir]) - 1; ci >= 0; ci-- {
 		a := o.app[dir][ci]
 		if len(a.gens) == 0 {
-			// the suite is found by trial
-			for _, s := range suitesFor(len(a.secret)) {
-				k := refcrypto.DeriveKeys(s, version, a.secret)
-				if _, _, _, _, err := refcrypto.Unprotect(k, pkt, pnOff, a.largest); err == nil {
-					a.gens = []*refcrypto.Keys{k}
-					a.v1chain = []bool{false}
-					a.suite = s
-					break
+			// the suite is found by trial; so is the version: o.version follows the latest Initial packet seen, and
+			// after a Version Negotiation the closed connection of the old version may still repeat its
+			// CONNECTION_CLOSE Initial while the new connection already sends 1-RTT packets
+			other := uint32(refcrypto.V2)
+			if version == refcrypto.V2 {
+				other = refcrypto.V1
+			}
+		trial:
+			for _, ver := range []uint32{version, other} {
+				for _, s := range suitesFor(len(a.secret)) {
+					k := refcrypto.DeriveKeys(s, ver, a.secret)
+					// The first 1-RTT packet of this direction may already be in key phase 1: an endpoint that has
+					// received 100 packets (FirstKeyUpdateInterval) before it sends its first one - a client that
+					// only had Handshake packets to send while the server's 0.5-RTT data arrived - updates its keys
+					// as soon as the handshake is confirmed. The generations are found by the code below once suite
+					// and version are known.
+					cands := []*refcrypto.Keys{k, k.NextGeneration()}
+					if ver == refcrypto.V2 {
+						cands = append(cands, k.NextGenerationWithLabel("quic ku"))
+					}
+					for _, c := range cands {
+						if _, _, _, _, err := refcrypto.Unprotect(c, pkt, pnOff, a.largest); err == nil {
+							a.gens = []*refcrypto.Keys{k}
+							a.v1chain = []bool{false}
+							a.suite = s
+							a.version = ver
+							break trial
+						}
+					}
 				}
 			}
 			if len(a.gens) == 0 {
@@ -339,7 +446,7 @@ func (o *Observer) decodeShort(dir Dir, pkt []byte) *Packet {
 			p.V2KULabelFallback = a.v1chain[p.KeyGen]
 			return p
 		}
-		if version == refcrypto.V2 {
+		if a.version == refcrypto.V2 {
 			alt := last.NextGenerationWithLabel("quic ku")
 			if try(alt) {
 				a.gens = append(a.gens, alt)
